@@ -388,6 +388,46 @@ class NumpyProxy(types.ModuleType):
             return False
         return all(bool(x == y) for x, y in zip(a0.ravel(), b0.ravel()))
 
+    @staticmethod
+    def unique(ar, return_index=False, return_inverse=False, return_counts=False, axis=None, **k):
+        """numpy.unique for 1-D symbolic arrays: the order and the coincidences of the elements are decided by
+        comparisons, each of which is a path split (every ordering / coincidence pattern is a path)"""
+        a0 = real_np.asarray(ar)
+        if true_dtype(a0) != object:
+            return real_np.unique(ar, return_index=return_index, return_inverse=return_inverse, return_counts=return_counts, axis=axis, **k)
+        if axis is not None or k:
+            raise core.Unsupported("numpy.unique with axis / extra options on a symbolic array")
+        flat = list(a0.ravel())
+        order = []  # indices sorted by value (insertion sort, stable)
+        for i, v in enumerate(flat):
+            pos = len(order)
+            for j, o in enumerate(order):
+                if bool(v < flat[o]):
+                    pos = j
+                    break
+            order.insert(pos, i)
+        groups = []  # runs of equal values
+        for i in order:
+            if groups and bool(flat[groups[-1][0]] == flat[i]):
+                groups[-1].append(i)
+            else:
+                groups.append([i])
+        vals = real_np.empty(len(groups), dtype=object)
+        for g, grp in enumerate(groups):
+            vals[g] = flat[grp[0]]
+        out = [vals.view(SymArray)]
+        if return_index:
+            out.append(real_np.array([min(grp) for grp in groups], dtype=real_np.intp))
+        if return_inverse:
+            inv = real_np.empty(len(flat), dtype=real_np.intp)
+            for g, grp in enumerate(groups):
+                for i in grp:
+                    inv[i] = g
+            out.append(inv)
+        if return_counts:
+            out.append(real_np.array([len(grp) for grp in groups], dtype=real_np.intp))
+        return out[0] if len(out) == 1 else tuple(out)
+
     # ---- floating point error state (recorded, forwarded)
     @staticmethod
     def seterr(**kw):
